@@ -933,12 +933,7 @@ func (cx *Ctx) reviewedDivisor(s abortSite) string {
 			_, n := calleeName(x.Common())
 			switch {
 			case strings.HasSuffix(n, "NewInt") && len(x.Common().Args) == 1:
-				if fa, ok := x.Common().Args[0].(*ssa.UnOp); ok {
-					if f, ok := fa.X.(*ssa.FieldAddr); ok && fieldNameShort(f.X.Type(), f.Field) == "BlockTimestamp" {
-						return "timestamp"
-					}
-				}
-				if f, ok := x.Common().Args[0].(*ssa.Field); ok && fieldNameShort(f.X.Type(), f.Field) == "BlockTimestamp" {
+				if cx.isBlockTimestamp(x.Common().Args[0], 0) {
 					return "timestamp"
 				}
 				return ""
@@ -958,6 +953,9 @@ func (cx *Ctx) reviewedDivisor(s abortSite) string {
 		return ""
 	}
 	src := source(s.den, 0)
+	if os.Getenv("DEBUG_DIV") != "" {
+		fmt.Fprintf(os.Stderr, "reviewedDivisor %s den=%s src=%q\n", shortFn(s.fn), s.den, src)
+	}
 	switch src {
 	case "timestamp":
 		// every generator is built with the block header time
@@ -2540,4 +2538,50 @@ func factDivGuard(w *Walker, fr *Frame, ins ssa.Instruction, den ssa.Value) stri
 		}
 	}
 	return ""
+}
+
+// isBlockTimestamp: the value is the generator's BlockTimestamp field, or a parameter that
+// every caller fills with it (or that the constructor stores into that very field).
+func (cx *Ctx) isBlockTimestamp(v ssa.Value, depth int) bool {
+	if depth > 6 {
+		return false
+	}
+	switch x := v.(type) {
+	case *ssa.UnOp:
+		if f, ok := x.X.(*ssa.FieldAddr); ok && x.Op == token.MUL && fieldNameShort(f.X.Type(), f.Field) == "BlockTimestamp" {
+			return true
+		}
+	case *ssa.Field:
+		return fieldNameShort(x.X.Type(), x.Field) == "BlockTimestamp"
+	case *ssa.Parameter:
+		fn := x.Parent()
+		// the constructor: the same parameter is what the field is set to
+		if x.Referrers() != nil {
+			for _, r := range *x.Referrers() {
+				if st, ok := r.(*ssa.Store); ok && st.Val == ssa.Value(x) {
+					if fa, ok := st.Addr.(*ssa.FieldAddr); ok && fieldNameShort(fa.X.Type(), fa.Field) == "BlockTimestamp" {
+						return true
+					}
+				}
+			}
+		}
+		idx := -1
+		for i, p := range fn.Params {
+			if p == x {
+				idx = i
+			}
+		}
+		cs := cx.CallersOf(fn)
+		if idx < 0 || len(cs) == 0 {
+			return false
+		}
+		for _, c := range cs {
+			cc := c.Site.Common()
+			if cc.IsInvoke() || cc.StaticCallee() != fn || idx >= len(cc.Args) || !cx.isBlockTimestamp(cc.Args[idx], depth+1) {
+				return false
+			}
+		}
+		return true
+	}
+	return false
 }
